@@ -1418,7 +1418,9 @@ class EventBus:
         for event_id, event in self.event_history.items():
             if event.event_status == 'pending':
                 pending_events.append((event_id, event))
-            elif event.event_status == 'started':
+            elif event.event_status == 'started' or not event.event_are_all_children_complete():
+                # handlers done but children still in flight: the event is not complete yet, and its children's
+                # completion has to find it in the history to mark it complete
                 started_events.append((event_id, event))
             else:  # completed or error
                 completed_events.append((event_id, event))
